@@ -31,8 +31,8 @@ Proof.
   apply comma_app_plain. apply not_comma_norm. auto.
 Qed.
 
-Lemma pre_level o : op_kind o = KPre -> op_level o = S_Unary.
-Proof. destruct o; intro H; try discriminate; reflexivity. Qed.
+Lemma pre_level o : op_kind o = KPre -> op_eqb o UYield = false -> op_level o = S_Unary /\ pre_max o = 19 /\ pre_arg o = S_Unary /\ spec_level o = S_Unary.
+Proof. destruct o; intros H Hy; try discriminate; repeat split; reflexivity. Qed.
 Lemma post_level o : op_kind o = KPost -> op_level o = S_Update /\ is_update o = true.
 Proof. destruct o; intro H; try discriminate; split; reflexivity. Qed.
 Lemma bin_level o : op_kind o = KBin -> op_level o <= 17 /\ right_level o <= 17 /\ 0 <= lpl o.
@@ -88,6 +88,7 @@ Qed.
 Lemma lv_ok_low fp e : lv_ok fp 0 0 e /\ lv_ok fp 3 LYield e /\ lv_ok fp 3 LComma e.
 Proof.
   destruct e as [| | | |u w|o2 a b2|c0 y0 n0| |f0 a0| | |]; simpl; auto; repeat split;
+    try (right; unfold un_lim, S_Update, S_Call; destruct (op_eqb u UYield); lia);
     try (right; unfold S_Update, S_Call; lia).
   - right. pose proof (op_level_pos o2). lia.
   - destruct (LYield >=? op_level o2) eqn:E; [left; apply wrapped_level; [reflexivity | exact E]|]. right.
@@ -158,6 +159,8 @@ Qed.
 Lemma operand17 fp L t : wf t -> L < S_Update -> lv_ok fp L (LPrefix - 1) t.
 Proof.
   intros Hw HL. destruct t as [| | | |u w|o2 a b2|c0 y0 n0| |f0 a0| | |]; simpl; auto.
+  - unfold un_lim. destruct (op_eqb u UYield) eqn:Ey; [|right; exact HL].
+    left. assert (u = UYield) by (destruct u; try discriminate; reflexivity). subst u. reflexivity.
   - left. apply wrapped_level; [reflexivity|]. simpl. rewrite Z.geb_leb. apply Z.leb_le.
     destruct Hw as (_ & _ & Hk & _). destruct (bin_level o2 Hk) as (Hle & _). unfold LPrefix. lia.
   - right. unfold S_Update, S_Call in *. lia.
@@ -216,22 +219,39 @@ Proof.
     apply gen_of_unw; [reflexivity|].
     intros fb sb ni Pb P L rest res Hfl Hin HP HPl _ HL HL2 Hlv Hf Hs. destruct Hwf as (Hwv & Hku & Hupd). simpl in Hcn.
     rewrite body_un. simpl lvl in *. simpl norm in Hs. simpl PrintParse.strat in Hs.
-    assert (HL19 : L < S_Update).
+    assert (HLlim : L < un_lim o).
     { destruct Hlv as [W|W]; [|exact W]. rewrite (unw_not_wrapped fb P (EUn o v) eq_refl HPl Hin) in W. discriminate. }
     destruct (op_kind o) eqn:Ek.
     + (* prefix *)
-      destruct (pre_tok o Ek) as (T0 & T1 & T2). rewrite (pre_level o Ek) in *.
+      destruct (pre_tok o Ek) as (T0 & T1 & T2).
       rewrite toks_app, <- app_assoc. change (toks [IOp o]) with (toks_of (IOp o) ++ []). rewrite T2. simpl app.
-      apply (E_prefix ni L (op_tok o) _ o (norm v) rest res T0 T1); [apply Z.leb_gt; unfold S_New, S_Update in *; lia| | |exact Hs].
-      * apply (proj1 IHv Hwv Hcn false false false (LPrefix - 1) S_Unary); try (unfold LPrefix, S_Unary, S_Update, S_Call; lia).
-        -- apply flag_ok_off.
-        -- apply operand17; [exact Hwv | unfold S_Unary, S_Update; lia].
-        -- apply (fol_weaken P); [unfold LPrefix, S_Unary in *; lia | exact Hf].
-        -- apply S_stop. apply (fol_stop P); [exact Hf | unfold LPrefix, S_Unary in *; lia | unfold S_Unary in *; lia|].
-           intros o' Hk' _. apply Z.leb_le. rewrite spec_level_is_op_level. destruct (bin_level o' Hk'). unfold S_Unary. lia.
-      * destruct (is_update o) eqn:Eu; [|reflexivity]. simpl. rewrite is_target_norm. auto.
+      destruct (op_eqb o UYield) eqn:Ey.
+      * (* yield: an AssignmentExpression whose operand is an AssignmentExpression with the same [In] *)
+        assert (o = UYield) by (destruct o; try discriminate; reflexivity). subst o.
+        unfold un_lim in HLlim. simpl in HLlim. change (op_level UYield) with 4 in *.
+        assert (Hfl3 : flag_ok ni fb LYield).
+        { intro Hn. destruct (Hfl Hn) as [E|E]; [left; exact E | unfold LCompare in E; lia]. }
+        apply (E_prefix ni L (op_tok UYield) _ UYield (norm v) rest res T0 T1); [change (pre_max UYield) with 3; apply Z.ltb_ge; lia| |reflexivity|exact Hs].
+        change (pre_in UYield ni) with ni. change (pre_arg UYield) with 3. change (op_eqb UYield UYield && fb) with fb. change (4 - 1) with LYield.
+        destruct (lv_ok_low fb v) as (_ & Lv & _).
+        apply (proj1 IHv Hwv Hcn fb false ni LYield 3); try assumption; try (unfold LYield, S_Call; lia).
+        -- apply (fol_weaken P); [unfold LYield; lia | exact Hf].
+        -- apply S_stop. apply (fol_stop P); [exact Hf | unfold LPrefix; lia | lia|].
+           intros o' Hk' Hl'. apply low_ops_stop; [exact Hk' | unfold LYield; lia].
+      * destruct (pre_level o Ek Ey) as (E1 & E2 & E3 & E4).
+        unfold un_lim in HLlim. rewrite Ey in HLlim. rewrite E1 in *.
+        apply (E_prefix ni L (op_tok o) _ o (norm v) rest res T0 T1); [rewrite E2; apply Z.ltb_ge; unfold S_Update in *; lia| | |rewrite E4; exact Hs].
+        -- unfold pre_in. rewrite Ey, E3. simpl andb.
+           apply (proj1 IHv Hwv Hcn false false false (LPrefix - 1) S_Unary); try (unfold LPrefix, S_Unary, S_Update, S_Call; lia).
+           ++ apply flag_ok_off.
+           ++ apply operand17; [exact Hwv | unfold S_Unary, S_Update; lia].
+           ++ apply (fol_weaken P); [unfold LPrefix, S_Unary in *; lia | exact Hf].
+           ++ apply S_stop. apply (fol_stop P); [exact Hf | unfold LPrefix, S_Unary in *; lia | unfold S_Unary in *; lia|].
+              intros o' Hk' _. apply Z.leb_le. rewrite spec_level_is_op_level. destruct (bin_level o' Hk'). unfold S_Unary. lia.
+        -- destruct (is_update o) eqn:Eu; [|reflexivity]. simpl. rewrite is_target_norm. auto.
     + (* postfix *)
       destruct (post_tok o Ek) as (T1 & T2 & T3). destruct (post_level o Ek) as [El Eu]. rewrite El in *.
+      assert (HL19 : L < S_Update) by (unfold un_lim in HLlim; destruct o; try discriminate; exact HLlim).
       specialize (Hupd Eu). destruct (target_shape v Hupd) as [Hcv Hlv'].
       rewrite toks_app, <- app_assoc. change (toks [IOp o]) with (toks_of (IOp o) ++ []). rewrite T3. simpl app.
       apply (proj1 IHv Hwv Hcn false sb ni (LPostfix - 1) L); try assumption.
@@ -262,7 +282,10 @@ Proof.
     apply (proj1 IHl Hwl Hcl fb sb ni (left_lvl o l) L); try assumption; try lia.
     + apply (flag_ok_mono ni fb P); [exact Hfl | unfold lpl in Hll; destruct (is_right_assoc o); lia].
     + destruct l as [| | | |u w|o2 a b2|c0 y0 n0| |f0 a0| | |]; simpl; auto.
-      * right. unfold S_Update. lia.
+      * unfold un_lim. destruct (op_eqb u UYield) eqn:Ey; [|right; unfold S_Update; lia].
+        assert (u = UYield) by (destruct u; try discriminate; reflexivity). subst u.
+        destruct (left_lvl o (EUn UYield w) >=? 4) eqn:E; [left; apply wrapped_level; [reflexivity | exact E]|].
+        right. rewrite Z.geb_leb in E. apply Z.leb_gt in E. unfold lpl in Hll. destruct (is_right_assoc o); lia.
       * destruct (left_lvl o (EBin o2 a b2) >=? op_level o2) eqn:E; [left; apply wrapped_level; [reflexivity | exact E]|].
         right. rewrite Z.geb_leb in E. apply Z.leb_gt in E. unfold lpl in Hll. destruct (is_right_assoc o); lia.
       * (* a conditional as left operand: parenthesised except under a comma *)
@@ -300,7 +323,8 @@ Proof.
     + unfold LConditional. lia.
     + left. exact HLc.
     + destruct c as [| | | |u w|o2 a b2|c0 y0 n0| |f0 a0| | |]; simpl; auto.
-      * right. unfold S_Update, LConditional in *. lia.
+      * unfold un_lim. destruct (op_eqb u UYield) eqn:Ey; [|right; unfold S_Update, LConditional in *; lia].
+        assert (u = UYield) by (destruct u; try discriminate; reflexivity). subst u. left. reflexivity.
       * destruct (LConditional >=? op_level o2) eqn:E; [left; apply wrapped_level; [reflexivity | exact E]|].
         right. rewrite Z.geb_leb in E. apply Z.leb_gt in E. lia.
     + reflexivity.
